@@ -35,6 +35,8 @@ def explore(ctx, depth):
     import corpus_tokens as CT
     import tokobs
     rng = ctx.rng
+    import docrun
+    docrun.edit_category_sets()
     cells = list(CT.ALL)
     nrand = 150 if depth == 'quick' else 3000
     for _ in range(nrand):
@@ -147,6 +149,56 @@ def explore(ctx, depth):
                 ctx.check({'columns': cols, 'row': i, 'column': j, 'header': h, 'cell': c, 'previous_rows': rows[:i]}, impl, model, spec,
                           nontrivial=kern2[c][1] is not None,
                           what='inside a multi-spine document a cell is not imported as its own spine type imports that text')
+
+    # ---- a spine of another type added in the MIDDLE of the score by `*+` in a column that is not the last one: from then on the columns to
+    #      its right have moved, and every cell must still be imported as the type of ITS OWN spine imports that text (round 6, C18_r6_2)
+    docs3 = []
+    for d in range(8 if depth == 'quick' else 80):
+        cols = rng.sample(kern_hdrs, rng.randint(2, 4))
+        j = rng.randrange(len(cols) - 1)
+        hnew = rng.choice([h for h in kern_hdrs if h != cols[j]])
+        rows1 = [rng.choice(pool2) for _ in range(rng.randint(1, 3))]
+        rows2 = [rng.choice(pool2) for _ in range(rng.randint(2, 5))] + [rng.choice(rows1)]
+        docs3.append((cols, j, hnew, rows1, rows2))
+    need = sorted({c for _, _, _, r1, r2 in docs3 for c in r1 + r2})
+    kern3 = {c: tokobs.fresh_kern(c) for c in need}
+    reqs, metas = [], []
+    for cols, j, hnew, rows1, rows2 in docs3:
+        for h in cols + [hnew]:
+            for c in rows1 + rows2:
+                reqs.append({'op': 'c18.import', 'header': h, 'cell': c, 'kern': kern3[c][1]})
+                metas.append((h, c))
+    exp3 = {}
+    for (h, c), r in zip(metas, ctx.driver.ask(reqs)):
+        exp3[(h, c)] = r
+    for cols, j, hnew, rows1, rows2 in docs3:
+        cols2 = cols[:j + 1] + [hnew] + cols[j + 1:]
+        n = len(cols)
+        lines = ['\t'.join(cols)] + ['\t'.join([c] * n) for c in rows1] + ['\t'.join('*+' if k == j else '*' for k in range(n))] + \
+                ['\t'.join(['*'] * (j + 1) + [hnew] + ['*'] * (n - 1 - j))] + ['\t'.join([c] * (n + 1)) for c in rows2] + ['\t'.join(['*-'] * (n + 1))]
+        text = '\n'.join(lines) + '\n'
+        def run3():
+            doc, errs = kp.loads(text)
+            st = doc.tree.stages
+            return [[tokobs.obs(nd.token) for nd in st[2 + i]] for i in range(len(rows1))] + \
+                   [[tokobs.obs(nd.token) for nd in st[2 + len(rows1) + 2 + i]] for i in range(len(rows2))]
+        got = call(run3)
+        ctx.count('added_spine_documents')
+        if 'ok' not in got:
+            ctx.fail({'text': text, 'clause': 'spine added by *+ in the middle: import'}, 'import of a document with a spine added by *+ failed', impl=got)
+            continue
+        for i, c in enumerate(rows1 + rows2):
+            hdrs = cols if i < len(rows1) else cols2
+            for k, h in enumerate(hdrs):
+                r = exp3[(h, c)]
+                impl = {'ok': got['ok'][i][k]}
+                if impl['ok'].get('cls') == 'ErrorToken':
+                    impl = {'err': 'Exception'}
+                model = r['model'] if 'ok' in r['model'] else {'err': 'Exception'}
+                spec = r['spec'] if h != '**kern' else None
+                ctx.check({'text': text, 'row': i, 'column': k, 'header': h, 'cell': c, 'clause': 'spine added by *+ in the middle'}, impl, model, spec,
+                          nontrivial=kern3[c][1] is not None,
+                          what='after a spine was added by *+ a cell is not imported as its own spine type imports that text')
 
 
 def replay(ctx, payload):
